@@ -1,4 +1,4 @@
-import SupervisorModel.Lemmas.SupLemmas
+import SupervisorModel.Lemmas.SupFrame
 /-
   C05 — shutdown and restart stop everything, in priority order, and only then exit.
   Theorems over the per-process model and the daemon model (Model/Sup.lean); the daemon model is
@@ -199,5 +199,64 @@ theorem phase1_touches_only_last_group (gid : Nat) (s : Sup) (m : Nat)
     apply hm
     have h1 : e ∈ sortBy (·.prio) (members s.procs gid) := by simpa using he
     exact (mem_sortBy _ _ _).mp h1
+
+/-! ### whole runs of the daemon -/
+
+/-- **SUPERVISOR_STATE_CHANGE_STOPPING is announced at most once in the life of the daemon**: from any
+    state in which the `stopping` flag is clear and nothing has been announced, after any number of
+    passes under any environments (signals, shutdown/restart RPCs, …), the notification occurs at
+    most once in the output. -/
+theorem stopping_announced_at_most_once (envs : List Sup.Env) (s0 : Sup) (h0 : s0.stopping = false)
+    (hn : SOut.stopping ∉ s0.outs) : ((passes envs s0).outs.filter (· == SOut.stopping)).length ≤ 1 := by
+  have hc0 : cntStopping s0 = 0 := by
+    simp only [cntStopping, List.length_eq_zero_iff, List.filter_eq_nil_iff]
+    intro o ho hb
+    exact hn ((beq_iff_eq.mp hb) ▸ ho)
+  have h := (fr_passes envs s0).cnt
+  simp only [cntStopping] at h hc0
+  omega
+
+/-- **… and exactly when the ordered stop begins**: while the `stopping` flag is clear nothing has been
+    announced; once set, the flag is never cleared. -/
+theorem stopping_flag_and_announcement (envs : List Sup.Env) (s0 : Sup) (hn : SOut.stopping ∉ s0.outs) :
+    ((passes envs s0).stopping = false → SOut.stopping ∉ (passes envs s0).outs) ∧
+    (s0.stopping = true → (passes envs s0).stopping = true) := by
+  have hc0 : cntStopping s0 = 0 := by
+    simp only [cntStopping, List.length_eq_zero_iff, List.filter_eq_nil_iff]
+    intro o ho hb
+    exact hn ((beq_iff_eq.mp hb) ▸ ho)
+  obtain ⟨h1, h2, _⟩ := fr_passes envs s0
+  refine ⟨fun hf hmem => ?_, h1⟩
+  rcases h2 with h2 | ⟨_, h2, _⟩
+  · rw [hc0] at h2
+    simp only [cntStopping, List.length_eq_zero_iff, List.filter_eq_nil_iff] at h2
+    exact h2 _ hmem (by simp)
+  · rw [h2] at hf; exact absurd hf (by simp)
+
+/-- **The daemon's mood never rises over a whole run**: after any number of passes under any
+    environments (any signals, any RPCs), the mood is at most what it was and still a valid mood —
+    a shutdown is never turned back into a restart or into RUNNING. -/
+theorem mood_never_rises_daemon (envs : List Sup.Env) (s0 : Sup) (h : moodSHUTDOWN ≤ s0.mood) :
+    (passes envs s0).mood ≤ s0.mood ∧ moodSHUTDOWN ≤ (passes envs s0).mood :=
+  (fr_passes envs s0).mood h
+
+-- non-vacuity: a two-process daemon that receives SIGTERM and then SIGHUP announces STOPPING once and ends in SHUTDOWN
+def cfgS : Cfg where
+  startsecs := 1024
+  startretries := 3
+  autostart := true
+  autorestart := .unexpected
+  exitcodes := [0]
+  stopsignal := 15
+  stopwaitsecs := 10240
+  stopasgroup := false
+  killasgroup := false
+def s2 : Sup := { procs := [{ name := 0, gid := 0, gprio := 999, prio := 999, cfg := cfgS },
+                            { name := 1, gid := 1, gprio := 999, prio := 999, cfg := cfgS }] }
+example : s2.stopping = false ∧ SOut.stopping ∉ s2.outs ∧ moodSHUTDOWN ≤ s2.mood := by decide
+example :
+    let r := passes [{ now := 1024000, spawns := [.ok 7, .ok 8], waits := [[]], sig := some 15 },
+                     { now := 1025000, kills := [.ok, .ok], waits := [[]], sig := some 1 }] s2
+    (r.outs.filter (· == SOut.stopping)).length = 1 ∧ r.mood = moodSHUTDOWN ∧ r.stopping = true := by decide +kernel
 
 end Sv.Props.C05
